@@ -24,4 +24,5 @@ SPEC = {
         "technique": "Coq proof over a labelled transition system + trace conformance at the tracker's observation points (vm_compute) + property oracle at quiescence on the implementation",
     },
     "harness_timeout": {"quick": 400, "thorough": 3000},
+    "search": {"n": 3000, "timeout": 400},
 }
